@@ -6,7 +6,7 @@
 
   (a) `sections_categories`, `section_content`, `printed_iff`, `in_every_category`, `printed_once`, `line_shape`
   (b) `notes_are_algTexts`, `notes_eq_audit`, `notes_eq_audit_unmeasured`, `notes_request_free`, `unknown_line_only_gss`, `known_in_audit`;
-      the converse direction fails for `gss-<method>-<base64>` names: `audit_known_lookup_unknown` (witness) / `audit_known_lookup_known_partial`
+      and conversely (after the D38 repair, gss instances included): `audit_known_is_found`, `audit_known_iff_lookup_known`, `audit_known_iff_found`, `gss_instance_line`
   (c) `not_found_iff`, `not_found_list`, `unknown_never_printed`, `known_never_listed`, `requested_accounted`, `unknown_flagged_fail`
   (d) `similar_iff`, `similar_rule`, `similar_only_unknown`, `similar_text`, `similar_implies_not_found`
   (e) `status_values`, `status_is_fold`, `status_three_iff`, `status_two_iff`, `status_zero_iff`, `status_unknown`, `status_order_free`
@@ -16,6 +16,7 @@
   the regenerated SSH-2 database (kernel-evaluated): `gen_*`
 -/
 import SshAudit.Lemmas.Lookup
+import SshAudit.Props.C03
 import SshAudit.Gen.KexDB
 namespace SshAudit.C03Lookup
 open SshAudit.Report SshAudit.Lookup
@@ -24,8 +25,9 @@ open Output (Cfg Op Item Sec Meth Buf)
 /-- the four categories `--lookup` prints, in its order -/
 def fourCats : List Str := [kexC, keyC, macC, encC]
 
-/-- the database knows the name: it is a key of one of its categories -/
-def known (db : DB) (n : Str) : Prop := ∃ c ∈ cats db, n ∈ DBm.keys db c
+/-- the database knows the name: it is a key of one of its categories, or a `gss-<method>-<suffix>` name whose `gss-<method>-*` form is a key
+    exchange key (`Lookup.covers`: the audit's own rule) -/
+def known (db : DB) (n : Str) : Prop := ∃ c, covers db c n
 
 /-- every note `--lookup` prints -/
 def printedNotes (o : SetOrder) (db : DB) (names : List Str) : List Note :=
@@ -52,9 +54,10 @@ theorem section_content (o : SetOrder) (db : DB) (names : List Str) (sc : Sectio
   obtain ⟨t, h1, h2, h3, h4⟩ := (mem_sections o db names sc).mp h
   exact ⟨t, h1, h3, h4, h2⟩
 
-/-- **a line for `n` is printed under category `c` iff `n` was requested (as an item, verbatim) and is a key of `c`** (and not blank) -/
+/-- **a line for `n` is printed under category `c` iff `n` was requested (as an item, verbatim) and is a key of `c`** — for `kex` also a gss name
+    covered by a wildcard key — (and not blank) -/
 theorem printed_iff (o : SetOrder) (ho : o.ok) (db : DB) (names : List Str) (c n : Str) :
-    (∃ l ∈ sectionLines o db names c, l.name = n) ↔ n ∈ names ∧ n ∈ DBm.keys db c ∧ printed c n = true := by
+    (∃ l ∈ sectionLines o db names c, l.name = n) ↔ n ∈ names ∧ covers db c n ∧ printed c n = true := by
   constructor
   · rintro ⟨l, hl, rfl⟩
     obtain ⟨h1, h2, h3, _, _⟩ := (mem_sectionLines o ho db names c l).mp hl
@@ -68,11 +71,11 @@ theorem printed_iff (o : SetOrder) (ho : o.ok) (db : DB) (names : List Str) (c n
 /-- a requested name that is a key of one of the four categories has a line in *that* category's section — so a name that is a key
     of two categories (`none`, `aes128-gcm`, …) appears in both -/
 theorem in_every_category (o : SetOrder) (ho : o.ok) (db : DB) (names : List Str) (c n : Str)
-    (hc : c ∈ fourCats) (hn : n ∈ names) (hk : n ∈ DBm.keys db c) (hp : printed c n = true) :
+    (hc : c ∈ fourCats) (hn : n ∈ names) (hk : covers db c n) (hp : printed c n = true) :
     ∃ sc ∈ sections o db names, sc.cat = c ∧ ∃ l ∈ sc.lines, l.name = n ∧ l.cat = c := by
   have hf : found db names c ≠ [] := by
     intro h0
-    have := (mem_found db names c n).mpr ⟨hk, hn⟩
+    have := (mem_found db names c n).mpr ⟨hn, hk⟩
     rw [h0] at this; cases this
   have ht : ∃ t, (c, t) ∈ algTypes := by
     simp only [fourCats, List.mem_cons, List.not_mem_nil, or_false] at hc
@@ -94,7 +97,18 @@ theorem printed_once (o : SetOrder) (ho : o.ok) (db : DB) (names : List Str) (c 
   apply List.Nodup.sublist List.filter_sublist
   rw [(ho c _).nodup_iff]
   unfold found
-  exact List.Nodup.sublist List.filter_sublist hd
+  rw [List.nodup_append]
+  refine ⟨List.Nodup.sublist List.filter_sublist hd, ?_, ?_⟩
+  · split
+    · unfold gssExtra; exact nodup_dedup _
+    · exact List.nodup_nil
+  · intro a ha b hb
+    split at hb
+    · next hc =>
+      subst hc
+      rintro rfl
+      exact ((mem_gssExtra db names a).mp hb).2.2 (List.mem_filter.mp ha).1
+    · cases hb
 
 /-- a lookup line carries its section's category and the bare name (no size suffix) -/
 theorem line_shape (o : SetOrder) (db : DB) (names : List Str) (c : Str) (l : AlgLine) (h : l ∈ sectionLines o db names c) :
@@ -135,27 +149,32 @@ theorem notes_request_free (o₁ o₂ : SetOrder) (db : DB) (names₁ names₂ :
   cases l₁; cases l₂
   simp_all
 
-/-- a lookup line says "unknown algorithm" only for a key the kex gss normalisation rewrites (a `gss-…` key not in wildcard form) -/
+/-- a lookup line says "unknown algorithm" only for a literal key that the kex gss rewriting maps away from the keys (a `gss-…` key not in wildcard form) -/
 theorem unknown_line_only_gss (o : SetOrder) (ho : o.ok) (db : DB) (names : List Str) (c : Str) (l : AlgLine) (h : l ∈ sectionLines o db names c)
-    (hu : l.unknown = true) : gssNormalize c l.name ≠ l.name := by
-  intro hg
+    (hu : l.unknown = true) : l.name ∈ DBm.keys db c ∧ gssNormalize c l.name ≠ l.name := by
   obtain ⟨_, hk, ht, _, _⟩ := (mem_sectionLines o ho db names c l).mp h
-  obtain ⟨e, he⟩ := lookup_isSome_of_mem_keys db c l.name hk
-  unfold algTexts at ht
-  simp only [hg, he] at ht
-  split at ht
-  · cases ht
-  · have h2 := congrArg Prod.snd (Option.some.inj ht)
-    simp only at h2
-    rw [← h2] at hu; cases hu
+  have key : ¬ (gssNormalize c l.name = l.name ∨ l.name ∉ DBm.keys db c) := by
+    intro hg
+    obtain ⟨e, he⟩ := covers_lookup db c l.name hk hg
+    unfold algTexts at ht
+    simp only [he] at ht
+    split at ht
+    · cases ht
+    · have h2 := congrArg Prod.snd (Option.some.inj ht)
+      simp only at h2
+      rw [← h2] at hu; cases hu
+  constructor
+  · apply Classical.byContradiction; intro hn; exact key (Or.inr hn)
+  · intro hg; exact key (Or.inl hg)
 
-/-- otherwise it shows the entry's texts, exactly as the audit does for a known name -/
+/-- otherwise it shows the texts of the entry the audit rates the name from (the name's own entry, or the wildcard entry of a gss name) -/
 theorem known_in_audit (o : SetOrder) (ho : o.ok) (db : DB) (names : List Str) (c : Str) (l : AlgLine) (h : l ∈ sectionLines o db names c)
-    (hg : gssNormalize c l.name = l.name) : l.unknown = false ∧ ∃ e, DBm.lookup db c l.name = some e ∧ l.notes = entryTexts e := by
+    (hg : gssNormalize c l.name = l.name ∨ l.name ∉ DBm.keys db c) :
+    l.unknown = false ∧ ∃ e, DBm.lookup db c (gssNormalize c l.name) = some e ∧ l.notes = entryTexts e := by
   obtain ⟨_, hk, ht, _, _⟩ := (mem_sectionLines o ho db names c l).mp h
-  obtain ⟨e, he⟩ := lookup_isSome_of_mem_keys db c l.name hk
+  obtain ⟨e, he⟩ := covers_lookup db c l.name hk hg
   unfold algTexts at ht
-  simp only [hg, he] at ht
+  simp only [he] at ht
   split at ht
   · cases ht
   · have h1 := congrArg Prod.fst (Option.some.inj ht)
@@ -163,44 +182,117 @@ theorem known_in_audit (o : SetOrder) (ho : o.ok) (db : DB) (names : List Str) (
     simp only at h1 h2
     exact ⟨h2.symm, e, he, h1.symm⟩
 
-/-- the converse one would like: whatever name the audit rates from a database entry, `--lookup` finds -/
-def AuditKnownIsFound (db : DB) : Prop := ∀ c n ts, algTexts db c n = some (ts, false) → n ∉ notFound db [n]
+/-- whatever name the audit rates from a database entry, `--lookup` finds -/
+def AuditKnownIsFound (db : DB) : Prop := ∀ c n ts names, algTexts db c n = some (ts, false) → n ∉ notFound db names
 
 def gssInstance : Str := s "gss-group14-sha256-toWM5Slw5Ew8Mqkay+al2g=="
 
-/-- **it does not hold**: the audit rates `gss-group14-sha256-toWM5Slw5Ew8Mqkay+al2g==` from the entry `gss-group14-sha256-*`,
-    `--lookup` of the same name lists it under "unknown algorithms" -/
-theorem audit_known_lookup_unknown : ¬ AuditKnownIsFound Gen.ssh2db := by
-  intro h
-  have h1 : (algTexts Gen.ssh2db kexC gssInstance).map (·.2) = some false := by decide +kernel
-  have h2 : gssInstance ∈ notFound Gen.ssh2db [gssInstance] := by decide +kernel
-  cases ht : algTexts Gen.ssh2db kexC gssInstance with
-  | none => rw [ht] at h1; cases h1
-  | some v =>
-    obtain ⟨ts, unk⟩ := v
-    rw [ht] at h1
-    have : unk = false := by simpa using h1
-    subst this
-    exact h kexC gssInstance ts ht h2
-
-/-- it holds for every name the gss normalisation leaves alone (every name outside `kex`, every non-`gss-` name, the wildcard keys themselves) -/
-theorem audit_known_lookup_known_partial (db : DB) (c n : Str) (ts : List Note) (hg : gssNormalize c n = n)
-    (h : algTexts db c n = some (ts, false)) (names : List Str) : n ∉ notFound db names := by
+/-- a name the audit rates from an entry of category `c` is covered by `c` in `--lookup` -/
+theorem audit_known_covers (db : DB) (c n : Str) (ts : List Note) (h : algTexts db c n = some (ts, false)) : covers db c n ∧ printed c n = true := by
+  have hp : printed c n = true := by rw [← algTexts_isSome db c n, h]; rfl
+  refine ⟨?_, hp⟩
   unfold algTexts at h
-  simp only [hg] at h
+  simp only at h
   split at h
   · cases h
-  · cases hl : DBm.lookup db c n with
+  · cases hl : DBm.lookup db c (gssNormalize c n) with
     | none => rw [hl] at h; cases h
     | some e =>
-      have hk := mem_keys_of_lookup db c n e hl
-      have hc := mem_keys_mem_cats db c n hk
-      intro hnf
-      unfold notFound at hnf
-      simp only [List.mem_filter, Bool.not_eq_true', contains_false_iff] at hnf
-      apply hnf.2
-      unfold flattened
-      exact List.mem_flatMap.mpr ⟨c, hc, (mem_found db names c n).mpr ⟨hk, hnf.1⟩⟩
+      have hk := mem_keys_of_lookup db c _ e hl
+      by_cases hg : gssNormalize c n = n
+      · rw [hg] at hk; exact Or.inl hk
+      · right
+        unfold gssNormalize at hg hk
+        split at hg
+        · next hc =>
+          obtain ⟨rfl, hs⟩ := hc
+          refine ⟨rfl, ?_⟩
+          unfold gssKnown gssNormalize
+          simp only [hs, and_self, if_true, Bool.true_and, List.contains_iff_mem]
+          simpa [hs] using hk
+        · exact absurd rfl hg
+
+/-- **for every database: a name the audit rates from a database entry — a `gss-<method>-<base64>` instance included — is never listed as not found** (D38, repaired) -/
+theorem audit_known_is_found (db : DB) : AuditKnownIsFound db := by
+  intro c n ts names h hnf
+  obtain ⟨hc, _⟩ := audit_known_covers db c n ts h
+  unfold notFound at hnf
+  simp only [List.mem_filter, Bool.not_eq_true', contains_false_iff] at hnf
+  apply hnf.2
+  unfold flattened
+  exact List.mem_flatMap.mpr ⟨c, covers_mem_cats db c n hc, (mem_found db names c n).mpr ⟨hnf.1, hc⟩⟩
+
+/-- **known to the audit ⇔ known to `--lookup`, with the same notes**: for each of the four categories and every requested name, the audit model rates the
+    name from a database entry with notes `ts` iff `--lookup` prints a (not "unknown") line for it in that category's section with exactly the notes `ts` -/
+theorem audit_known_iff_lookup_known (o : SetOrder) (ho : o.ok) (db : DB) (names : List Str) (c n : Str) (ts : List Note) (hc : c ∈ fourCats) (hn : n ∈ names) :
+    algTexts db c n = some (ts, false) ↔
+      ∃ sc ∈ sections o db names, sc.cat = c ∧ ∃ l ∈ sc.lines, l.name = n ∧ l.notes = ts ∧ l.unknown = false := by
+  constructor
+  · intro h
+    obtain ⟨hcov, hp⟩ := audit_known_covers db c n ts h
+    obtain ⟨sc, hsc, hcat, l, hl, hln, _⟩ := in_every_category o ho db names c n hc hn hcov hp
+    refine ⟨sc, hsc, hcat, l, hl, hln, ?_⟩
+    obtain ⟨_, _, _, _, hlines⟩ := (mem_sections o db names sc).mp hsc
+    rw [hlines, hcat] at hl
+    have ht := notes_are_algTexts o db names c l hl
+    rw [hln, h] at ht
+    have h1 := congrArg Prod.fst (Option.some.inj ht)
+    have h2 := congrArg Prod.snd (Option.some.inj ht)
+    simp only at h1 h2
+    exact ⟨h1.symm, h2.symm⟩
+  · rintro ⟨sc, hsc, hcat, l, hl, hln, hnotes, hunk⟩
+    obtain ⟨_, _, _, _, hlines⟩ := (mem_sections o db names sc).mp hsc
+    rw [hlines, hcat] at hl
+    have ht := notes_are_algTexts o db names c l hl
+    rw [hln, hnotes, hunk] at ht
+    exact ht
+
+/-- for a database whose keys are their own normal form and not blank (the regenerated one: `gen_keys_normal`, `gen_no_blank_keys`) the not-found list
+    is exactly the requested names the audit rates in no category -/
+theorem audit_known_iff_found (db : DB) (hN : ∀ c k, k ∈ DBm.keys db c → gssNormalize c k = k) (hB : ∀ c k, k ∈ DBm.keys db c → printed c k = true)
+    (names : List Str) (n : Str) (hn : n ∈ names) :
+    n ∉ notFound db names ↔ ∃ c ts, algTexts db c n = some (ts, false) := by
+  constructor
+  · intro hnf
+    have hfl : n ∈ flattened db names := by
+      apply Classical.byContradiction
+      intro h
+      apply hnf
+      unfold notFound
+      simp only [List.mem_filter, Bool.not_eq_true', contains_false_iff]
+      exact ⟨hn, h⟩
+    unfold flattened at hfl
+    obtain ⟨c, _, hf⟩ := List.mem_flatMap.mp hfl
+    obtain ⟨_, hcov⟩ := (mem_found db names c n).mp hf
+    rcases hcov with hk | ⟨rfl, hg⟩
+    · obtain ⟨e, he⟩ := lookup_isSome_of_mem_keys db c n hk
+      have hp := hB c n hk
+      refine ⟨c, entryTexts e, ?_⟩
+      unfold algTexts
+      unfold printed at hp
+      simp only [hN c n hk] at hp ⊢
+      have : (Text.stripU n).isEmpty = false := by simpa using hp
+      rw [this, he]; rfl
+    · obtain ⟨_, e, he⟩ := gssKnown_lookup db n hg
+      have hk := mem_keys_of_lookup db kexC _ e he
+      have hp := hB kexC _ hk
+      refine ⟨kexC, entryTexts e, ?_⟩
+      unfold algTexts
+      unfold printed at hp
+      simp only [hN kexC _ hk] at hp
+      simp only
+      have : (Text.stripU (gssNormalize kexC n)).isEmpty = false := by simpa using hp
+      rw [this, he]; rfl
+  · rintro ⟨c, ts, h⟩
+    exact audit_known_is_found db c n ts names h
+
+/-- a gss instance is shown with the notes of its wildcard entry: for every method and every suffix without `-` (any length; `/`, `+`, `=` allowed),
+    the line `--lookup` prints for `gss-<method>-<suffix>` carries `algTexts` of `gss-<method>-*` -/
+theorem gss_instance_line (o : SetOrder) (db : DB) (names : List Str) (p sfx : Str) (hs : '-' ∉ sfx) (l : AlgLine)
+    (h : l ∈ sectionLines o db names kexC) (hn : l.name = s "gss-" ++ p ++ '-' :: sfx) :
+    algTexts db kexC (s "gss-" ++ p ++ s "-*") = some (l.notes, l.unknown) := by
+  rw [← C03.gss_wildcard db p sfx hs, ← hn]
+  exact notes_are_algTexts o db names kexC l h
 
 /-! ### (c) unknown names -/
 
@@ -210,29 +302,33 @@ theorem not_found_iff (db : DB) (names : List Str) (n : Str) : n ∈ notFound db
   simp only [List.mem_filter, Bool.not_eq_true', contains_false_iff, List.mem_flatMap, mem_found]
   constructor
   · rintro ⟨h1, h2⟩
-    exact ⟨h1, fun ⟨c, hc, hk⟩ => h2 ⟨c, hc, hk, h1⟩⟩
+    exact ⟨h1, fun ⟨c, hk⟩ => h2 ⟨c, covers_mem_cats db c n hk, h1, hk⟩⟩
   · rintro ⟨h1, h2⟩
-    exact ⟨h1, fun ⟨c, hc, hk, _⟩ => h2 ⟨c, hc, hk⟩⟩
+    exact ⟨h1, fun ⟨c, _, _, hk⟩ => h2 ⟨c, hk⟩⟩
 
 /-- … in the order of the request, repeats included -/
 theorem not_found_list (db : DB) (names : List Str) :
-    notFound db names = names.filter (fun n => !(cats db).any (fun c => (DBm.keys db c).contains n)) := by
+    notFound db names = names.filter (fun n => !((cats db).any (fun c => (DBm.keys db c).contains n) || gssKnown db n)) := by
   unfold notFound
   apply List.filter_congr
   intro n hn
   congr 1
   rw [Bool.eq_iff_iff]
-  simp only [List.contains_iff_mem, flattened, List.mem_flatMap, mem_found, List.any_eq_true]
+  simp only [List.contains_iff_mem, flattened, List.mem_flatMap, mem_found, List.any_eq_true, Bool.or_eq_true]
   constructor
-  · rintro ⟨c, hc, hk, _⟩; exact ⟨c, hc, hk⟩
-  · rintro ⟨c, hc, hk⟩; exact ⟨c, hc, hk, hn⟩
+  · rintro ⟨c, hc, _, hk | ⟨_, hg⟩⟩
+    · exact Or.inl ⟨c, hc, hk⟩
+    · exact Or.inr hg
+  · rintro (⟨c, hc, hk⟩ | hg)
+    · exact ⟨c, hc, hn, Or.inl hk⟩
+    · exact ⟨kexC, covers_mem_cats db kexC n (Or.inr ⟨rfl, hg⟩), hn, Or.inr ⟨rfl, hg⟩⟩
 
 /-- a name the database does not know never gets an algorithm line, in any category -/
 theorem unknown_never_printed (o : SetOrder) (ho : o.ok) (db : DB) (names : List Str) (n : Str) (hu : ¬ known db n)
     (c : Str) (l : AlgLine) (hl : l ∈ sectionLines o db names c) : l.name ≠ n := by
   rintro rfl
   obtain ⟨_, hk, _⟩ := (mem_sectionLines o ho db names c l).mp hl
-  exact hu ⟨c, mem_keys_mem_cats db c l.name hk, hk⟩
+  exact hu ⟨c, hk⟩
 
 /-- a name the database knows is never listed as not found -/
 theorem known_never_listed (db : DB) (names : List Str) (n : Str) (hk : known db n) : n ∉ notFound db names :=
@@ -244,8 +340,8 @@ theorem requested_accounted (o : SetOrder) (ho : o.ok) (db : DB) (names : List S
     n ∈ notFound db names ∨ ∃ sc ∈ sections o db names, ∃ l ∈ sc.lines, l.name = n := by
   by_cases hk : known db n
   · right
-    obtain ⟨c, hc, hkc⟩ := hk
-    obtain ⟨sc, hsc, _, l, hl, hln, _⟩ := in_every_category o ho db names c n (h4 c hc) hn hkc (hb c)
+    obtain ⟨c, hkc⟩ := hk
+    obtain ⟨sc, hsc, _, l, hl, hln, _⟩ := in_every_category o ho db names c n (h4 c (covers_mem_cats db c n hkc)) hn hkc (hb c)
     exact ⟨sc, hsc, l, hl, hln⟩
   · left; exact (not_found_iff db names n).mpr ⟨hn, hk⟩
 
@@ -272,7 +368,7 @@ theorem similar_only_unknown (db : DB) (names : List Str) (g : Suggestion) (h : 
     g.unknown ∈ names ∧ ¬ known db g.unknown ∧ known db g.name := by
   obtain ⟨h1, h2, h3, _⟩ := (similar_iff db names g).mp h
   obtain ⟨a, b⟩ := (not_found_iff db names g.unknown).mp h1
-  exact ⟨a, b, g.cat, h2, h3⟩
+  exact ⟨a, b, g.cat, Or.inl h3⟩
 
 /-- each is printed with `out.warn` as `unknown --> (category) name` -/
 theorem similar_text (cfg : Cfg) (o : SetOrder) (db : DB) (names : List Str) (g : Suggestion) (h : g ∈ similar db names) :
@@ -373,11 +469,11 @@ theorem mem_printedNotes (o : SetOrder) (ho : o.ok) (db : DB) (names : List Str)
     obtain ⟨t, h1, _, _, h4⟩ := (mem_sections o db names sc).mp hsc
     rw [h4] at hl
     obtain ⟨a, b, c', _, _⟩ := (mem_sectionLines o ho db names sc.cat l).mp hl
-    exact ⟨sc.cat, t, h1, l.name, (mem_found db names sc.cat l.name).mpr ⟨b, a⟩, l.notes, l.unknown, c', hnt⟩
+    exact ⟨sc.cat, t, h1, l.name, (mem_found db names sc.cat l.name).mpr ⟨a, b⟩, l.notes, l.unknown, c', hnt⟩
   · rintro ⟨c, t, hct, k, hk, ts, unk, ht, hnt⟩
     have hk' := (mem_found db names c k).mp hk
     refine ⟨{ cat := c, title := s "# " ++ t, lines := sectionLines o db names c }, (mem_sections o db names _).mpr ⟨t, hct, List.ne_nil_of_mem hk, rfl, rfl⟩,
-      { cat := c, name := k, shown := k, notes := ts, unknown := unk }, (mem_sectionLines o ho db names c _).mpr ⟨hk'.2, hk'.1, ht, rfl, rfl⟩, hnt⟩
+      { cat := c, name := k, shown := k, notes := ts, unknown := unk }, (mem_sectionLines o ho db names c _).mpr ⟨hk'.1, hk'.2, ht, rfl, rfl⟩, hnt⟩
 
 /-- the return value does not depend on the order in which the sets are iterated -/
 theorem status_order_free (o₁ o₂ : SetOrder) (h₁ : o₁.ok) (h₂ : o₂.ok) (db : DB) (names : List Str) : status o₁ db names = status o₂ db names := by
@@ -423,21 +519,21 @@ theorem case_variant_unknown_suggested (db : DB) (names : List Str) (u c k : Str
 theorem repeats_kept (db : DB) (names : List Str) (n : Str) (hu : ¬ known db n) : (notFound db names).count n = names.count n := by
   rw [not_found_list]
   apply List.count_filter
-  have : (cats db).any (fun c => (DBm.keys db c).contains n) = false := by
+  have h1 : (cats db).any (fun c => (DBm.keys db c).contains n) = false := by
     rw [Bool.eq_false_iff]
     intro h
-    obtain ⟨c, hc, hk⟩ := List.any_eq_true.mp h
-    exact hu ⟨c, hc, List.contains_iff_mem.mp hk⟩
-  simp only [this, Bool.not_false]
+    obtain ⟨c, _, hk⟩ := List.any_eq_true.mp h
+    exact hu ⟨c, Or.inl (List.contains_iff_mem.mp hk)⟩
+  have h2 : gssKnown db n = false := by
+    rw [Bool.eq_false_iff]
+    intro h
+    exact hu ⟨kexC, Or.inr ⟨rfl, h⟩⟩
+  simp only [h1, h2, Bool.or_false, Bool.not_false]
 
 /-- the sets depend on which names were requested, not on how often or in what order -/
-theorem found_depends_on_set (db : DB) (names₁ names₂ : List Str) (h : ∀ n, n ∈ names₁ ↔ n ∈ names₂) (c : Str) :
-    found db names₁ c = found db names₂ c := by
-  unfold found
-  apply List.filter_congr
-  intro k _
-  rw [Bool.eq_iff_iff]
-  simp [h k]
+theorem found_depends_on_set (db : DB) (names₁ names₂ : List Str) (h : ∀ n, n ∈ names₁ ↔ n ∈ names₂) (c k : Str) :
+    k ∈ found db names₁ c ↔ k ∈ found db names₂ c := by
+  rw [mem_found, mem_found, h k]
 
 /-! ### the text, and `main()` -/
 
@@ -557,20 +653,38 @@ theorem gen_keys_normal (c k : Str) (hk : k ∈ DBm.keys Gen.ssh2db c) : gssNorm
 /-- so `--lookup` on this database never prints an "unknown algorithm" line: every printed line shows a database entry -/
 theorem gen_never_unknown_line (o : SetOrder) (ho : o.ok) (names : List Str) (c : Str) (l : AlgLine) (h : l ∈ sectionLines o Gen.ssh2db names c) :
     l.unknown = false := by
-  have hk := ((mem_sectionLines o ho Gen.ssh2db names c l).mp h).2.1
-  exact (known_in_audit o ho Gen.ssh2db names c l h (gen_keys_normal c l.name hk)).1
+  apply (known_in_audit o ho Gen.ssh2db names c l h ?_).1
+  by_cases hk : l.name ∈ DBm.keys Gen.ssh2db c
+  · exact Or.inl (gen_keys_normal c l.name hk)
+  · exact Or.inr hk
 
 /-- `none` is a key of `enc` and of `mac`: both sections are printed -/
 theorem gen_multi_category :
     (sections dbOrder Gen.ssh2db (requested (s "none"))).map (fun sc => (sc.cat, sc.lines.map (·.name))) = [(macC, [s "none"]), (encC, [s "none"])] ∧
     notFound Gen.ssh2db (requested (s "none")) = [] := by decide +kernel
 
-/-- the witness of `audit_known_lookup_unknown` in full: not found, nothing suggested, FAILURE — while the audit rates it from the wildcard entry -/
-theorem gen_gss_instance_unknown :
-    notFound Gen.ssh2db (requested gssInstance) = [gssInstance] ∧ similar Gen.ssh2db (requested gssInstance) = [] ∧
-    status dbOrder Gen.ssh2db (requested gssInstance) = 3 ∧ sections dbOrder Gen.ssh2db (requested gssInstance) = [] ∧
-    (algTexts Gen.ssh2db kexC gssInstance).map (·.2) = some false ∧
-    algTexts Gen.ssh2db kexC gssInstance = algTexts Gen.ssh2db kexC (s "gss-group14-sha256-*") := by decide +kernel
+/-- on this database the names listed as not found are exactly the requested names the audit rates in no category -/
+theorem gen_not_found_iff_audit_unknown (names : List Str) (n : Str) (hn : n ∈ names) :
+    n ∈ notFound Gen.ssh2db names ↔ ∀ c ts, algTexts Gen.ssh2db c n ≠ some (ts, false) := by
+  have h := audit_known_iff_found Gen.ssh2db gen_keys_normal gen_no_blank_keys names n hn
+  constructor
+  · intro hnf c ts ht
+    exact (h.mpr ⟨c, ts, ht⟩) hnf
+  · intro hall
+    apply Classical.byContradiction
+    intro hnf
+    obtain ⟨c, ts, ht⟩ := h.mp hnf
+    exact hall c ts ht
+
+/-- the D38 witness after the repair: found, printed once in the `kex` section with the notes of `gss-group14-sha256-*` (two warnings: WARNING, not FAILURE),
+    nothing listed as not found, nothing suggested — also when requested twice, and next to the wildcard key itself -/
+theorem gen_gss_instance_known :
+    notFound Gen.ssh2db (requested gssInstance) = [] ∧ similar Gen.ssh2db (requested gssInstance) = [] ∧
+    status dbOrder Gen.ssh2db (requested gssInstance) = 2 ∧
+    (sections dbOrder Gen.ssh2db (requested gssInstance)).map (fun sc => (sc.cat, sc.lines.map (fun l => (l.name, l.unknown)))) = [(kexC, [(gssInstance, false)])] ∧
+    (sections dbOrder Gen.ssh2db (requested gssInstance)).flatMap (fun sc => sc.lines.map (fun l => some (l.notes, l.unknown))) =
+      [algTexts Gen.ssh2db kexC (s "gss-group14-sha256-*")] ∧
+    found Gen.ssh2db [gssInstance, s "gss-group14-sha256-*", gssInstance] kexC = [s "gss-group14-sha256-*", gssInstance] := by decide +kernel
 
 /-! ### non-vacuity -/
 
